@@ -9,7 +9,8 @@
    Part B (`mstep`): the whole manager — several executions, the response demultiplexer (message id -> waiter), the
    message-id counter, the requests on the wire and the responses not yet delivered — driven by an arbitrary list of
    events (submit, server processes the k-th request, server rejects it with a code, the k-th response is delivered,
-   the stream breaks with an exception, a submit future is cancelled, stop()). *)
+   the stream breaks with an exception, a submit future is cancelled - while idle, while a response or a stream failure
+   is being delivered to it -, stop()). *)
 From Coq Require Import List Bool Arith.
 From VF Require Import Async.StreamTypes Generated.RetryTable.
 Import ListNotations.
@@ -146,7 +147,8 @@ Inductive event :=
 | RespondCancel (k : nat)       (* ... and its waiter is cancelled before it resumes *)
 | Break (x : exn)               (* the stream raises x: outstanding responses are lost, unhandled requests become mute *)
 | Cancel (i : nat)              (* the future returned by the i-th submit is cancelled *)
-| Stop.                         (* StreamManager.stop() *)
+| Stop                          (* StreamManager.stop() *)
+| BreakCancel (x : exn) (i : nat). (* the stream raises x and the i-th submit is cancelled before its execution resumes *)
 
 Fixpoint mem (x : nat) (l : list nat) : bool := match l with [] => false | y :: r => (x =? y) || mem x r end.
 Fixpoint lookup (id : nat) (l : list (nat * nat)) : option nat :=
@@ -237,6 +239,13 @@ Definition wake_stopped (m : mgr) (s : nat * nat) : mgr :=
    not handled yet may still be handled later — but their responses go nowhere *)
 Definition drop_stream (m : mgr) : mgr := set_subs [] (set_wire (map kill (wire m)) (set_pending [] m)).
 
+(* future.cancel() of the i-th submit: nothing happens unless its execution is still running *)
+Definition cancel_if_running (i : nat) (m : mgr) : mgr :=
+  match nth_error (execs m) i with
+  | Some x => if is_running (est x) then cancel_exec i m else m
+  | None => m
+  end.
+
 Definition mstep (m0 : mgr) (ev : event) : mgr :=
   let m := set_clock (S (clock m0)) m0 in
   match ev with
@@ -285,6 +294,10 @@ Definition mstep (m0 : mgr) (ev : event) : mgr :=
       | None => m
       end
   | Stop => fold_left wake_stopped (subs m) (drop_stream m)
+  | BreakCancel x i =>
+      (* the waiter of i has been failed by publish_exception like everybody else's, but its coroutine resumes with
+         CancelledError: it cancels the remote job and ends cancelled instead of retrying / raising x *)
+      let m1 := cancel_if_running i m in fold_left (wake_broken x) (subs m1) (drop_stream m1)
   end.
 
 Definition minit (pre_progs pre_jobs fails : list nat) : mgr :=
